@@ -512,32 +512,36 @@ func c20History() {
 	})
 }
 
-func TestC20(t *testing.T) {
-	rapid.Check(t, func(t *rapid.T) {
-		facts := &dumpFacts{}
-		st, sv := genDumpStruct(t, 0, rapid.IntRange(1, ev.Pick(5, 6)).Draw(t, "maxDepth"), facts)
-		c := &DumpCase{T: st, V: sv, PreValid: rapid.SampledFrom([]string{"-", "-", "", "", "valid", "json"}).Draw(t, "preValid")}
-		switch rapid.IntRange(0, 5).Draw(t, "top") {
-		case 0:
-			c.T, c.V = desc.Ptr(st), desc.V{Nil: true}
-		case 1, 2, 3:
-			c.T, c.V = desc.Ptr(st), desc.V{E: []desc.V{sv}}
+// propC20 is the property; TestC20 drives it with rapid's random generator, FuzzC20Rapid with the coverage-guided
+// native fuzzer (thorough tier).
+func propC20(t *rapid.T) {
+	facts := &dumpFacts{}
+	st, sv := genDumpStruct(t, 0, rapid.IntRange(1, ev.Pick(5, 6)).Draw(t, "maxDepth"), facts)
+	c := &DumpCase{T: st, V: sv, PreValid: rapid.SampledFrom([]string{"-", "-", "", "", "valid", "json"}).Draw(t, "preValid")}
+	switch rapid.IntRange(0, 5).Draw(t, "top") {
+	case 0:
+		c.T, c.V = desc.Ptr(st), desc.V{Nil: true}
+	case 1, 2, 3:
+		c.T, c.V = desc.Ptr(st), desc.V{E: []desc.V{sv}}
+	}
+	for name, on := range map[string]bool{"empty-struct": facts.emptyStruct, "bool": facts.boolean, "string-keyed-map": facts.strKeyMap, "map-key-of-a-defined-type": facts.namedKey, "ten-thousand-elements-before-other-fields": facts.bulk, "multi-entry-map": facts.multiEntryMap,
+		"struct-without-exported-fields": facts.noExported, "nil-pointer-in-collection": facts.nilPtrInCollection, "first-field-unexported": facts.firstUnexported} {
+		if on {
+			ev.Class("has-" + name)
 		}
-		for name, on := range map[string]bool{"empty-struct": facts.emptyStruct, "bool": facts.boolean, "string-keyed-map": facts.strKeyMap, "map-key-of-a-defined-type": facts.namedKey, "ten-thousand-elements-before-other-fields": facts.bulk, "multi-entry-map": facts.multiEntryMap,
-			"struct-without-exported-fields": facts.noExported, "nil-pointer-in-collection": facts.nilPtrInCollection, "first-field-unexported": facts.firstUnexported} {
-			if on {
-				ev.Class("has-" + name)
-			}
-		}
-		ev.Class(fmt.Sprintf("depth=%s", bucket(facts.depth)))
-		nt := facts.emptyStruct || facts.boolean || facts.strKeyMap || facts.multiEntryMap || facts.noExported || facts.nilPtrInCollection
-		b, _ := jsonMarshal(c)
-		ev.Case(string(b), nt, func() interface{} { return c })
-		if msg := checkDump(c); msg != "" {
-			ev.Fail(t, "C20", "dump", c, "%s", msg)
-		}
-	})
+	}
+	ev.Class(fmt.Sprintf("depth=%s", bucket(facts.depth)))
+	nt := facts.emptyStruct || facts.boolean || facts.strKeyMap || facts.multiEntryMap || facts.noExported || facts.nilPtrInCollection
+	b, _ := jsonMarshal(c)
+	ev.Case(string(b), nt, func() interface{} { return c })
+	if msg := checkDump(c); msg != "" {
+		ev.Fail(t, "C20", "dump", c, "%s", msg)
+	}
 }
+
+func TestC20(t *testing.T) { rapid.Check(t, propC20) }
+
+func FuzzC20Rapid(f *testing.F) { f.Fuzz(rapid.MakeFuzz(propC20)) }
 
 func TestC20Replay(t *testing.T) {
 	for _, f := range ev.ReplayFiles() {
